@@ -116,7 +116,7 @@ def register(J):
         J.append(mk("K_BLANK", d, c, "S5", 6, True, Q if d == "eq" else T))
     for d, c in (("eq", "hash"), ("coloneq", "semi"), ("sp", "hash"), ("sptab", "hash"), ("speq", "hashsemi"), ("tabspeq", "hash")):
         for ctx in ("S0", "S1", "S3", "S7"):
-            quick = (d in ("eq", "sp", "speq") and ctx in ("S1", "S7")) or (d == "eq")
+            quick = (d in ("eq", "sp", "speq") and ctx in ("S1", "S7")) or (d == "eq") or (d == "coloneq" and ctx == "S1")
             J.append(mk("K_ENTRY", d, c, ctx, 9, ctx != "S0", Q if quick else T))
     J.append(mk("K_ENTRY", "none", "hash", "S1", 6, True, Q))
     J.append(mk("K_ENTRY", "eq", "hash", "S1", 11, True, T))
@@ -130,3 +130,4 @@ def register(J):
     for d, c in (("eq", "hash"), ("coloneq", "semi"), ("sp", "hash"), ("speq", "hashsemi")):
         for ctx in ("S0", "S1", "S3", "S5", "S7"):
             J.append(mk("K_BAD", d, c, ctx, 7, True, Q if (d == "eq" or (d == "sp" and ctx == "S1")) else T))
+    J.append(mk("K_BAD", "eq", "hash", "S1", 9, True, Q))
